@@ -3,8 +3,12 @@ package props
 import (
 	"fmt"
 	"reflect"
+	"runtime"
 	"sort"
 	"time"
+
+	hessian "github.com/vogo/gohessian"
+	"verif/harness/guard"
 
 	"verif/harness/core"
 	rh "verif/harness/refhessian"
@@ -119,7 +123,9 @@ func fillers() []filler {
 		{"Inner by value", reflect.TypeOf(GVal{}), func(n reflect.Value, i int) {
 			n.Elem().FieldByName("F").Set(reflect.ValueOf(zoo.Inner{A: int32(i), S: "v"}))
 		}},
-		{"by-value struct as first field", reflect.TypeOf(GHead{}), func(n reflect.Value, i int) { n.Elem().FieldByName("F").Set(reflect.ValueOf(zoo.Inner{A: int32(i), S: "h"})) }},
+		{"by-value struct as first field", reflect.TypeOf(GHead{}), func(n reflect.Value, i int) {
+			n.Elem().FieldByName("F").Set(reflect.ValueOf(zoo.Inner{A: int32(i), S: "h"}))
+		}},
 		{"one leaf object shared by all nodes", reflect.TypeOf(GLeaf{}), func(n reflect.Value, i int) {
 			n.Elem().FieldByName("F").Set(reflect.ValueOf(sharedLeaf))
 			if i%2 == 0 {
@@ -555,6 +561,40 @@ func init() {
 					c.Cover("list-map-fields")
 				}})
 			}
+			us = append(us, core.Unit{Name: "gc-during-encode", Cost: 40, Run: func(c *core.Ctx) {
+				// structs written by value are registered through temporary copies; if the reference table does not
+				// keep those alive, the collector may hand their addresses to later copies within the same message
+				type byVal struct {
+					H    zoo.Inner
+					L    []zoo.Inner
+					M    map[string]zoo.Inner
+					P, Q *zoo.Inner
+				}
+				for _, n := range []int{10, 60, 200, 600} {
+					if !c.Begin() {
+						continue
+					}
+					c.NontrivialN(1)
+					sh := &zoo.Inner{A: 1, S: "shared"}
+					v := &byVal{H: zoo.Inner{A: -1, S: "h"}, M: map[string]zoo.Inner{"k": {A: 5, S: "m"}}, P: sh, Q: sh}
+					for i := 0; i < n; i++ {
+						v.L = append(v.L, zoo.Inner{A: int32(i), S: "e"})
+					}
+					tm, nm, _ := Maps(v)
+					w := guard.NewWriter()
+					w.OnWrite = func() { runtime.GC() }
+					err := hessian.NewEncoder(nil, nm).WriteTo(w, v)
+					desc := fmt.Sprintf("struct with %d by-value struct elements, runtime.GC() on every Write of the encode", n)
+					if err != nil {
+						c.Report(&core.Violation{Stage: "encode", Kind: "error", Shape: "gc-during-encode", Message: msgStrict(err.Error()), Case: desc})
+						continue
+					}
+					c.Res.States++
+					c.Res.Transitions += int64(w.Calls)
+					c.Outcome(decodeAgainst(c, w.Buf, v, tm, nm, desc, "gc-during-encode", nil))
+				}
+				c.Cover("gc-during-encode")
+			}})
 			us = append(us, core.Unit{Name: "families", Cost: 80, Run: func(c *core.Ctx) {
 				maxN := tierPick(tier, 120, 200)
 				for n := 1; n <= maxN; n++ {
@@ -574,7 +614,7 @@ func init() {
 			return us
 		},
 		RequireCover: func(string) []string {
-			l := []string{"families", "list-map-fields"}
+			l := []string{"families", "list-map-fields", "gc-during-encode"}
 			for _, f := range fillers() {
 				l = append(l, "filler:"+f.name)
 			}
